@@ -14,7 +14,13 @@ import (
 
 func rewriteMetadata(p string, stat *types.Stat) error {
 	for key, value := range stat.Xattrs {
-		sysx.LSetxattr(p, key, value, 0)
+		if err := sysx.LSetxattr(p, key, value, 0); err != nil && os.IsPermission(err) && os.FileMode(stat.Mode)&os.ModeSymlink == 0 {
+			// retry after chmod: the owner of a read-only entry may not
+			// set user xattrs on it; the final mode is applied below
+			if er := os.Chmod(p, os.FileMode(stat.Mode)|0200); er == nil {
+				sysx.LSetxattr(p, key, value, 0)
+			}
+		}
 	}
 
 	if err := os.Lchown(p, int(stat.Uid), int(stat.Gid)); err != nil {
